@@ -34,6 +34,17 @@ var scopePkgs = map[string]string{
 	"crc":         "go.etcd.io/etcd/pkg/v3/crc",
 }
 
+// packages outside the verification scope whose functions are named by a short prefix in contracts
+// (naming only: nothing in them is loaded as a root, inlined or verified)
+var aliasPkgs = map[string]string{
+	"go.etcd.io/etcd/server/v3/etcdserver/api/rafthttp": "rafthttp",
+	"go.etcd.io/etcd/raft/v3/raftpb":                    "raftpb",
+	"go.etcd.io/etcd/server/v3/storage/wal/walpb":       "walpb",
+	"go.etcd.io/etcd/client/pkg/v3/fileutil":            "fileutil",
+	"go.etcd.io/etcd/pkg/v3/pbutil":                     "pbutil",
+	"go.etcd.io/etcd/pkg/v3/ioutil":                     "pioutil",
+}
+
 // directory of each scope package under /repo (for contract files)
 var scopeDirs = map[string]string{
 	"util":        "util",
@@ -58,6 +69,7 @@ type Program struct {
 	SSA   map[string]*ssa.Package      // by short name
 	Short map[string]string            // import path -> short name
 	files map[string][]byte            // source file cache
+	allocMemo map[*ssa.Function]*allocInfo
 }
 
 func repoRoot() string {
@@ -140,6 +152,9 @@ func (P *Program) funcKey(fn *ssa.Function) string {
 	pkgShort := ""
 	if fn.Pkg != nil {
 		pkgShort = P.Short[fn.Pkg.Pkg.Path()]
+		if pkgShort == "" {
+			pkgShort = aliasPkgs[fn.Pkg.Pkg.Path()]
+		}
 		if pkgShort == "" {
 			pkgShort = strings.TrimPrefix(fn.Pkg.Pkg.Path(), mainMod+"/")
 		}
